@@ -113,6 +113,8 @@ def tod_strategy(around):
         st.tuples(st.integers(0, 23), st.integers(0, 59)).map(lambda hm: (hm[0] * 3600 + hm[1] * 60) * 10 ** 6),
         st.integers(0, DAY - 1),
         st.just(around), st.just(around),
+        st.sampled_from([(23 * 3600 + 30 * 60) * 10 ** 6, (23 * 3600 + 59 * 60 + 59) * 10 ** 6 + 999_000,
+                         (23 * 3600 + 5 * 60) * 10 ** 6, 30 * 60 * 10 ** 6]),
         st.sampled_from([1, -1, 500_000, -2_000_000]).map(lambda d: (around + d) % DAY),
     )
 
@@ -190,8 +192,13 @@ def cases(draw):
                               st.integers(0, nb - 1), st.integers(0, 7),
                               st.sampled_from([0, 1, 100, 1000, 3000, -100, -2000])).map(list))),
                           'cost_ms': draw(st.sampled_from([0, 0, 1, 5, 30]))})
-        elif r <= 4:
+        elif r <= 3:
             steps.append({'op': 'jump', 'seconds': draw(st.sampled_from([30, 600, 3599, 3600, 1800]))})
+        elif r <= 4:
+            # a jump at a chosen time of day (e.g. across midnight while an alarm of the last hour is pending)
+            steps.append({'op': 'jump_at', 'tod': draw(st.sampled_from([23 * 3600 + 600, 23 * 3600 + 3000,
+                                                                        22 * 3600 + 1800, 11 * 3600 + 3540])),
+                          'seconds': draw(st.sampled_from([3600, 3000, 1800, 3599]))})
         elif r <= 9:
             steps.append({'op': 'to_boundary', 'blk': draw(st.integers(0, nb - 1)), 'which': draw(st.integers(0, 7)),
                           'after_ms': draw(st.sampled_from([70, 500, 61]))})
@@ -320,6 +327,12 @@ def execute(case):
             if op == 'sleep':
                 await __import__('asyncio').sleep(step['seconds'])
             elif op == 'jump':
+                wall.jump(step['seconds'])
+                jump_until[0] = clock.now + 3600 + 1
+                obs['jumped'] = True
+            elif op == 'jump_at':
+                delta = (step['tod'] * 10 ** 6 - now_us(cfgs[0]) % DAY) % DAY
+                await __import__('asyncio').sleep(delta / 1e6)
                 wall.jump(step['seconds'])
                 jump_until[0] = clock.now + 3600 + 1
                 obs['jumped'] = True
